@@ -694,91 +694,38 @@ func checkFrameHelpers(p *load.Program, r *kit.Report, rule string) {
 		// the caller as soon as it returns, and a handler still reading the payload would share the
 		// connection with it
 		{
-			badW := ""
-			// the handler may be started by a helper that returns the result channel
-			startsGo := func(c ssa.CallInstruction) bool {
-				g := kit.StaticCallee(c)
-				if g == nil || g.Blocks == nil || g.Pkg != f.Pkg {
-					return false
-				}
-				has := false
-				kit.AllInstrs(g, func(in ssa.Instruction) {
-					if _, ok := in.(*ssa.Go); ok {
-						has = true
+			target := f
+			// a helper that starts the handler AND waits for it (it returns the error, not a
+			// channel): the obligation is the helper's
+			if len(started) == 0 {
+				kit.AllInstrs(f, func(in ssa.Instruction) {
+					c, ok := in.(*ssa.Call)
+					if !ok {
+						return
+					}
+					g := kit.StaticCallee(c)
+					if g == nil || g.Blocks == nil || g.Pkg != f.Pkg {
+						return
+					}
+					res := g.Signature.Results()
+					returnsChan := false
+					for i := 0; i < res.Len(); i++ {
+						if _, isCh := res.At(i).Type().Underlying().(*types.Chan); isCh {
+							returnsChan = true
+						}
+					}
+					hasGo := false
+					kit.AllInstrs(g, func(in2 ssa.Instruction) {
+						if _, ok := in2.(*ssa.Go); ok {
+							hasGo = true
+						}
+					})
+					if hasGo && !returnsChan {
+						target = g
 					}
 				})
-				return has
 			}
-			kit.AllInstrs(f, func(in ssa.Instruction) {
-				if c, ok := in.(*ssa.Call); ok && startsGo(c) {
-					started = append(started, in)
-				}
-			})
-			resultChan := func(v ssa.Value) bool {
-				switch x := kit.Strip(v).(type) {
-				case *ssa.MakeChan:
-					return true
-				case *ssa.Call:
-					return startsGo(x)
-				}
-				return false
-			}
-			var results []kit.Guard
-			for _, b := range f.Blocks {
-				ifi, ok := b.Instrs[len(b.Instrs)-1].(*ssa.If)
-				if !ok {
-					continue
-				}
-				bo, ok := ifi.Cond.(*ssa.BinOp)
-				if !ok || bo.Op != token.EQL {
-					continue
-				}
-				ex, ok := bo.X.(*ssa.Extract)
-				if !ok || ex.Index != 0 {
-					continue
-				}
-				sel, ok := ex.Tuple.(*ssa.Select)
-				if !ok {
-					continue
-				}
-				k, isC := kit.ConstInt(bo.Y)
-				if !isC || int(k) >= len(sel.States) || k < 0 {
-					continue
-				}
-				st := sel.States[k]
-				if st.Dir != types.RecvOnly {
-					continue
-				}
-				if resultChan(st.Chan) {
-					results = append(results, kit.Guard{If: ifi, Pass: 0})
-				}
-			}
-			// a plain receive `err := <-errChan`
-			var recvs []ssa.Instruction
-			_ = resultChan
-			kit.AllInstrs(f, func(in ssa.Instruction) {
-				if u, ok := in.(*ssa.UnOp); ok && u.Op == token.ARROW {
-					if resultChan(u.X) {
-						recvs = append(recvs, in)
-					}
-				}
-			})
-			if len(started) == 0 {
-				badW = "no handler goroutine is started"
-			} else if len(results) == 0 && len(recvs) == 0 {
-				badW = "the handler's result is never received"
-			}
-			for _, g := range started {
-				if badW != "" {
-					break
-				}
-				rr := kit.Reach(f, kit.After(g), kit.Opts{StopAt: kit.InstrSet(recvs...), BlockEdge: kit.EdgeSet(edgesOf(results, true)...)})
-				for _, ret := range kit.Returns(f) {
-					if rr.Has(ret) {
-						badW = "handleMessage can return (" + rr.PathTo(ret, p.Pos) + ") while the handler it started is still running: the caller reads the next message header from the connection while the handler is still reading this message's payload"
-					}
-				}
-			}
+			badW := waitsForHandler(p, target)
 			r.Check(badW == "", rule, "handleMessage/waits-for-handler", posOf(p, f.Blocks[0].Instrs[0]), "every return after the handler was started follows the receipt of its result", badW)
 		}
 	}
@@ -1036,4 +983,97 @@ func checkDrainToClose(p *load.Program, r *kit.Report, rule string) {
 		bad = "handleBlock never tests the tx channel for being closed"
 	}
 	r.Check(bad == "", rule, "BlockDownloader.handleBlock/drain-to-close", pos, fmt.Sprintf("all %d returns are behind a closed-channel edge", n), bad)
+}
+
+// waitsForHandler: in f every return after the handler goroutine was started (a go statement, or a
+// call of a helper of the package that contains one and returns the result channel) follows the
+// receipt of the handler's result. Returns "" when that holds.
+func waitsForHandler(p *load.Program, f *ssa.Function) string {
+	var started []ssa.Instruction
+	kit.AllInstrs(f, func(in ssa.Instruction) {
+		if g, ok := in.(*ssa.Go); ok {
+			started = append(started, g)
+		}
+	})
+	badW := ""
+	startsGo := func(c ssa.CallInstruction) bool {
+		g := kit.StaticCallee(c)
+		if g == nil || g.Blocks == nil || g.Pkg != f.Pkg {
+			return false
+		}
+		has := false
+		kit.AllInstrs(g, func(in ssa.Instruction) {
+			if _, ok := in.(*ssa.Go); ok {
+				has = true
+			}
+		})
+		return has
+	}
+	kit.AllInstrs(f, func(in ssa.Instruction) {
+		if c, ok := in.(*ssa.Call); ok && startsGo(c) {
+			started = append(started, in)
+		}
+	})
+	resultChan := func(v ssa.Value) bool {
+		switch x := kit.Strip(v).(type) {
+		case *ssa.MakeChan:
+			return true
+		case *ssa.Call:
+			return startsGo(x)
+		}
+		return false
+	}
+	var results []kit.Guard
+	for _, b := range f.Blocks {
+		ifi, ok := b.Instrs[len(b.Instrs)-1].(*ssa.If)
+		if !ok {
+			continue
+		}
+		bo, ok := ifi.Cond.(*ssa.BinOp)
+		if !ok || bo.Op != token.EQL {
+			continue
+		}
+		ex, ok := bo.X.(*ssa.Extract)
+		if !ok || ex.Index != 0 {
+			continue
+		}
+		sel, ok := ex.Tuple.(*ssa.Select)
+		if !ok {
+			continue
+		}
+		k, isC := kit.ConstInt(bo.Y)
+		if !isC || int(k) >= len(sel.States) || k < 0 {
+			continue
+		}
+		st := sel.States[k]
+		if st.Dir != types.RecvOnly {
+			continue
+		}
+		if resultChan(st.Chan) {
+			results = append(results, kit.Guard{If: ifi, Pass: 0})
+		}
+	}
+	// a plain receive `err := <-errChan`
+	var recvs []ssa.Instruction
+	kit.AllInstrs(f, func(in ssa.Instruction) {
+		if u, ok := in.(*ssa.UnOp); ok && u.Op == token.ARROW {
+			if resultChan(u.X) {
+				recvs = append(recvs, in)
+			}
+		}
+	})
+	if len(started) == 0 {
+		return "no handler goroutine is started"
+	} else if len(results) == 0 && len(recvs) == 0 {
+		return "the handler's result is never received"
+	}
+	for _, g := range started {
+		rr := kit.Reach(f, kit.After(g), kit.Opts{StopAt: kit.InstrSet(recvs...), BlockEdge: kit.EdgeSet(edgesOf(results, true)...)})
+		for _, ret := range kit.Returns(f) {
+			if rr.Has(ret) {
+				badW = kit.ShortID(kit.FuncID(f)) + " can return (" + rr.PathTo(ret, p.Pos) + ") while the handler it started is still running: the caller reads the next message header from the connection while the handler is still reading this message's payload"
+			}
+		}
+	}
+	return badW
 }
